@@ -226,3 +226,86 @@ fn c04_q_oneshot_sender_clones_race() {
   kani::cover!(other_sends, "the other clone sent");
   kani::cover!(!other_sends, "both clones dropped");
 }
+
+/// C04 (oneshot, symbolic program over the sender handles): N steps over {clone slot i into a free slot,
+/// close slot i, drop slot i, send through slot i}; at every step the receiver sees Empty while an open
+/// (neither closed nor dropped) sender exists and nothing was sent; at the end every handle is dropped
+/// and the receiver gets the sent value, or Disconnected if none was sent.
+#[kani::proof]
+#[kani::unwind(6)]
+fn c04_q_oneshot_sender_handles_program() {
+  let (tx, rx) = oneshot::oneshot::<u8>();
+  let mut h: [Option<oneshot::Sender<u8>>; 3] = [Some(tx), None, None];
+  let mut closed = [false; 3];
+  let mut sent = false;
+  let mut dead = false; // every sender handle was closed/dropped before any send: disconnected for good
+  let mut step = 0;
+  while step < 4 {
+    let op: u8 = kani::any();
+    let i: usize = kani::any();
+    kani::assume(op < 4 && i < 3);
+    if op == 0 {
+      if h[i].is_some() {
+        let free = if h[0].is_none() { 0 } else if h[1].is_none() { 1 } else if h[2].is_none() { 2 } else { 3 };
+        if free < 3 {
+          let c = h[i].as_ref().unwrap().clone();
+          h[free] = Some(c);
+          closed[free] = false; // a clone is a fresh, open handle
+        }
+      }
+    } else if op == 1 {
+      if let Some(s) = h[i].as_ref() {
+        let r = s.close();
+        assert!(r.is_ok() == !closed[i], "C04: oneshot sender close(): Ok exactly on the first call");
+        closed[i] = true;
+      }
+    } else if op == 2 {
+      h[i] = None;
+      closed[i] = false;
+    } else {
+      if let Some(s) = h[i].take() {
+        let was_closed = closed[i];
+        closed[i] = false;
+        match s.send(7) {
+          Ok(()) => {
+            assert!(!sent, "C03: a second oneshot send succeeded");
+            assert!(!was_closed, "C04: a send through a closed oneshot handle succeeded");
+            assert!(!dead, "C04: a send succeeded after the receiver could observe Disconnected");
+            sent = true;
+          }
+          // (after every sender was closed/dropped the implementation answers a resurrected clone's send
+          // with Sent rather than Closed; the properties do not fix the variant, only that the send fails
+          // and hands the value back)
+          Err(TrySendError::Sent(v)) => assert!(v == 7 && (sent || dead), "C03: Sent reported although nothing was sent and the channel is live"),
+          Err(TrySendError::Closed(v)) => {
+            assert!(v == 7, "C01: Closed did not hand the value back");
+            assert!(was_closed || dead, "C04: oneshot send reported Closed although the handle is open and the receiver is alive");
+          }
+          Err(_) => assert!(false, "C03: unexpected oneshot send error"),
+        }
+      }
+    }
+    let open = (h[0].is_some() && !closed[0]) || (h[1].is_some() && !closed[1]) || (h[2].is_some() && !closed[2]);
+    if !sent && !open {
+      dead = true;
+    }
+    if !sent && !dead {
+      assert!(rx.try_recv() == Err(TryRecvError::Empty), "C04: oneshot receiver disconnected while an open sender handle exists");
+    }
+    if dead {
+      assert!(rx.try_recv() == Err(TryRecvError::Disconnected), "C04: no Disconnected although every sender handle was closed or dropped");
+    }
+    step += 1;
+  }
+  h[0] = None;
+  h[1] = None;
+  h[2] = None;
+  if sent {
+    assert!(rx.try_recv() == Ok(7), "C01: the sent oneshot value was not delivered");
+  } else {
+    assert!(rx.try_recv() == Err(TryRecvError::Disconnected), "C04: no Disconnected after every sender handle was dropped");
+  }
+  kani::cover!(sent, "a value was sent");
+  kani::cover!(!sent, "nothing was sent");
+  kani::cover!(dead && (h[0].is_some() || true), "disconnected before any send");
+}
